@@ -19,7 +19,8 @@
    proof (RangeProof.tla RTampers) under a true or singly falsified claim. *)
 EXTENDS RangeProof, Json
 
-CONSTANTS MBTLen, LeftEdgeChecked, SweepMax, SweepOnly, BuildLen
+CONSTANTS MBTLen, LeftEdgeChecked, SweepMax, SweepOnly, BuildLen,
+          SharedOnly   \* TRUE: behaviours of shared proof sets only (Graft / Multi steps; Proof_shared.cfg)
 VARIABLE hist
 mbtvars == <<vars, hist>>
 MBTInit == Init /\ hist = <<>>
@@ -271,6 +272,42 @@ WQuery ==
       /\ hist' = Append(hist, [a |-> act', expect |-> mu.expect, more |-> FALSE,
                                pres |-> {[k |-> x, v |-> kv[x]] : x \in PresentKeys(kv)}])
 
+\* ---- proof sets shared between the keys of one request (Proof.tla, "shared proof sets"; engine TestSharedProofSets)
+\* Graft: the sub-trie below prefix p is copied below another prefix q of the same length - equal sub-tries at two
+\* positions, which a value alphabet tied to the keys can never produce
+GraftKV(p, q) == [k \in Keys |-> IF IsPrefixOf(q, k) THEN kv[p \o Drop(k, Len(p))] ELSE kv[k]]
+GraftFrom(j) == LET all == {Take(k, j) : k \in PresentKeys(kv)}
+                    big == {x \in all : Cardinality(Under(PresentKeys(kv), x)) >= 2} IN     \* a binary node on top
+                IF big # {} THEN big ELSE all
+GraftStep ==
+  \E j \in R(LET js == {i \in 1..(H - 1) : \E k \in PresentKeys(kv) : Cardinality(Under(PresentKeys(kv), Take(k, i))) >= 2} IN
+            IF js # {} THEN js ELSE 1..(H - 1)) :
+    \E p \in R(GraftFrom(j)) :
+      \E q \in R(LET all == {x \in SeqsOfLen(j) : x # p}
+                       good == {x \in all : Twins(GraftKV(p, x)) # {}} IN      \* ... below different edges
+                   IF good # {} THEN good ELSE all) :
+        /\ kv' = GraftKV(p, q)
+        /\ act' = [name |-> "Graft", p |-> p, q |-> q] /\ res' = Err
+        /\ hist' = Append(hist, [a |-> act', pres |-> {[k |-> x, v |-> kv'[x]] : x \in PresentKeys(kv')}])
+\* Multi: one request = an ordered list of 2..4 distinct keys; the set is filled by one Prove call per key (as
+\* rpc/v10/storage.go does per trie); the step carries the verdict of every key against the accumulated set.  The
+\* engine runs the request in EVERY order: the verdicts (the key's value / absence) do not depend on it.
+TwinKeys == UNION {Under(Keys, pq[1]) \cup Under(Keys, pq[2]) : pq \in Twins(kv)}
+MultiPool(w) == LET c == CASE w \in {1, 4} -> TwinKeys
+                           [] w = 2 -> PresentKeys(kv) \cup Near
+                           [] OTHER -> Keys IN
+                IF Cardinality(c) >= 4 THEN c ELSE Keys
+MultiQuery ==
+  \E impl \in R(Impls), cached \in R(BOOLEAN), n \in R(2..4), w \in R(1..4) :
+    \E pool \in {MultiPool(w)} :
+      \E k1 \in R(pool) : \E k2 \in R(pool \ {k1}) : \E k3 \in R(pool \ {k1, k2}) : \E k4 \in R(pool \ {k1, k2, k3}) :
+        \E req \in {SubSeq(<<k1, k2, k3, k4>>, 1, n)} : \E set \in {SharedSet(kv, impl, req, cached, "none")} :
+          /\ act' = [name |-> "Multi", impl |-> impl, cached |-> cached, req |-> req]
+          /\ res' = Err /\ UNCHANGED kv
+          /\ hist' = Append(hist, [a |-> act', outs |-> [i \in 1..n |-> Simplify(Verify(impl, Root(kv), req[i], set))],
+                                   truths |-> [i \in 1..n |-> kv[req[i]]], shape |-> Shape(set),
+                                   twins |-> Cardinality(Twins(kv)), pres |-> PresProj])
+
 PutStep ==
   /\ \/ \E k \in R(Keys), v \in R(Vals) : Put(k, v)
      \/ \E k \in R(Near), v \in R(Vals) : Put(k, v)
@@ -280,6 +317,10 @@ PutStep ==
 
 \* build first (a few keys), then query
 Step == IF Len(hist) < BuildLen THEN PutStep
+        ELSE IF SharedOnly
+        THEN IF PresentKeys(kv) = {} THEN PutStep
+             ELSE \E w \in R(1..8) : IF w = 1 \/ Len(hist) = BuildLen \/ (w <= 4 /\ Twins(kv) = {}) THEN GraftStep
+                                     ELSE IF w = 2 THEN PutStep ELSE MultiQuery
         ELSE IF SweepOnly
         \* (TLC's simulator evaluates every disjunct of a step before it picks one: the expensive sweep / tamper
         \*  steps are chosen by a random selector first and live in simulation runs of their own)
